@@ -139,6 +139,19 @@ Section Cluster.
     Ok (clusters, rem).
 End Cluster.
 
+(* ---- specification vocabulary (independent of the algorithm) ---- *)
+Section Spec.
+  Variable near : point -> point -> bool.
+  (* single linkage: two points are linked when one is within max_distance of the other
+     (`near` need not be symmetric for the theorems; the measured relation is) *)
+  Definition link (x y : point) : Prop := near x y = true \/ near y x = true.
+  (* x and y are joined by a chain of links through points of c *)
+  Inductive conn (c : list point) : point -> point -> Prop :=
+  | conn_refl x : In x c -> conn c x x
+  | conn_step x y z : conn c x y -> In z c -> link y z -> conn c x z.
+  Definition connected (c : list point) : Prop := forall x y, In x c -> In y c -> conn c x y.
+End Spec.
+
 (* reconstruction.rs:63-78: the public wrapper fixes min_num_points_per_cluster = 13
    (250 x 230 Hough bins and 3 cm are inside `bins` and `near`) *)
 Definition MIN_POINTS : nat := 13.
